@@ -25,6 +25,7 @@ type Plan struct {
 	Nontrivial       func(r *RunResult) bool
 	Assumptions      []string
 	MemLimit         uint64 // address-space fence for workers (bytes); 0 = none
+	WatchdogS        int  // per-run wall-clock limit in seconds (0: 900)
 	DeathIsViolation bool   // a worker dying reproducibly in a run is a violation (C18), not infrastructure
 }
 
@@ -330,11 +331,11 @@ func Plans() map[string]*Plan {
 	}
 	// ---- C18
 	{
-		ps["C18"] = &Plan{Prop: "C18", Level: "exploration", MemLimit: 6 << 30, DeathIsViolation: true,
+		ps["C18"] = &Plan{Prop: "C18", Level: "exploration", MemLimit: 6 << 30, DeathIsViolation: true, WatchdogS: 60,
 			Parts:       []Part{{Name: "S-CORRUPT", Quick: 250000, Thorough: 30000000, Gen: func(seed uint64) *RunSpec { return GenCorrupt("C18", seed) }}},
 			Rule:        "S-CORRUPT: a valid table (real Writer; 0-60 refs of all kinds, 0-20 log entries, swarm Config incl. small blocks, both hash sizes) hit by 1-8 storage faults (bit flip, byte overwrite, truncation, zeroed aligned range, splice from another offset or table, u24/u16 length-field edits, footer-field edits with the CRC repaired, header copied to footer with CRC repaired, trailing garbage) and, in faulty-source mode, transient short/empty/failed ReadBlock results; workload NewReader + full scans + seeks + RefsFor through the library's ByteBlockSource, through a clamping simulated-disk source, and through NewStack/Merged over a directory holding the damaged table; non-trivial = the damaged bytes differ from the original; distinct = distinct damaged byte strings",
 			Nontrivial:  func(r *RunResult) bool { return r.Probes["corrupt-noop"] == 0 && r.Probes["corrupt-unbuildable"] == 0 },
-			Assumptions: []string{"arbitrary byte strings are reached only as mutations of valid tables; there is no coverage guidance", "pure CPU loops are caught by iteration caps and a 900 s per-run watchdog"}}
+			Assumptions: []string{"arbitrary byte strings are reached only as mutations of valid tables; there is no coverage guidance", "pure CPU loops are caught by iteration caps and a 60 s per-run watchdog (also applied when a replay file is replayed)"}}
 	}
 	return ps
 }
